@@ -15,7 +15,7 @@ for q, c in REGISTRY.items():
         res = fv.run()
     except Exception as e:
         import traceback; traceback.print_exc(); print('ERROR', q, e); continue
-    print(f'== {q}: paths={fv.paths} {time.time()-t:.2f}s info={ {k:v for k,v in fv.info.items() if k!="assumptions"} }')
+    print(f'== {q.split(":")[1]}: paths={fv.paths} {time.time()-t:.2f}s info={ {k:v for k,v in fv.info.items() if k!="assumptions"} }')
     for r in res:
         if r.status != 'proved' or '-v' in sys.argv:
             print('  ', r.status.upper(), r.name, r.path, r.backend, r.time, json.dumps(r.model) if r.model else '', r.detail)
